@@ -4618,6 +4618,8 @@ impl MacroFileEnvGuard {
 
         #[cfg(not(target_arch = "wasm32"))]
         {
+            #[cfg(mimium_verif)]
+            crate::verif_hooks::sched_point(crate::verif_hooks::SP_ENV_VAR);
             let previous = std::env::var_os(Self::KEY);
             match file_path {
                 Some(path) => {
@@ -4641,6 +4643,8 @@ impl Drop for MacroFileEnvGuard {
 
         #[cfg(not(target_arch = "wasm32"))]
         {
+            #[cfg(mimium_verif)]
+            crate::verif_hooks::sched_point(crate::verif_hooks::SP_ENV_VAR);
             match &self.previous {
                 Some(value) => unsafe { std::env::set_var(Self::KEY, value) },
                 None => unsafe { std::env::remove_var(Self::KEY) },
